@@ -47,7 +47,8 @@ class Effects:
 
     def _check_dynamic(self):
         for f in self.repo.all_funcs():
-            if f.qual in DYNAMIC_WHITELIST or (f.outer_func and f.outer_func.qual in DYNAMIC_WHITELIST):
+            cq_ = lambda g: getattr(g, 'canon_qual', None) or g.qual
+            if cq_(f) in DYNAMIC_WHITELIST or (f.outer_func and cq_(f.outer_func) in DYNAMIC_WHITELIST):
                 continue
             for n in f.body_nodes():
                 if isinstance(n, ast.Call) and isinstance(n.func, ast.Name):
